@@ -25,6 +25,7 @@ ASSUMPTIONS = [
     'a LOCAL command whose family/protocol byte is not 00 may end as "local" or "invalid" (the code parses the ignored address block before looking at the command); reported, not judged',
     'asserts are live (python is not run with -O)',
     'concurrency: greenlets switch only inside recv_into (gevent); the concurrent streams park every connection at a harness gate inside recv_into (at every call, or when its current TCP segment is used up) and the harness decides which connection continues',
+    'the wrapped handler is arbitrary application code: whatever it raises (AssertionError included) is not the parser\'s business and must leave handle() unchanged',
     'mixin(): readers built with ProxyProtocolV1/V2/ProxyProtocol.mixin() on instances of one recording EdgeServer subclass must behave like the statically subclassed readers, whatever was mixed in before in the same process',
 ]
 
@@ -1187,6 +1188,123 @@ def gen_mixin(ctx):
 
 
 
+# ------------------------------------------------------------------ what the wrapped handler does
+class AppAssertion(AssertionError):
+    pass
+
+
+HANDLER_MODES = {0: None, 1: AssertionError, 2: AppAssertion, 3: RuntimeError, 4: LocalConnection, 5: OSError}
+MODE_NAMES = {0: 'returns', 1: 'raises AssertionError', 2: 'raises a subclass of AssertionError', 3: 'raises RuntimeError',
+              4: 'raises LocalConnection', 5: 'raises OSError'}
+
+
+class _OutcomeBase(object):
+    """wrapped handler with a prescribed outcome: records the call, reads `consume` payload bytes, returns or raises"""
+
+    def handle(self, sock, addr):
+        self.calls.append((caddr(addr), sock.pos))
+        if self.consume:
+            sock.recv(self.consume)
+        if self.exc is not None:
+            raise self.exc
+
+
+class OutV1(ProxyProtocolV1, _OutcomeBase):
+    pass
+
+
+class OutV2(ProxyProtocolV2, _OutcomeBase):
+    pass
+
+
+class OutAuto(ProxyProtocol, _OutcomeBase):
+    pass
+
+
+OUT_EDGES = {'v1': OutV1, 'v2': OutV2, 'auto': OutAuto}
+
+
+def impl_handle_outcome(variant, data, sched, mode, consume):
+    """-> (how handle() ended, [(address, bytes consumed at the call)], bytes consumed at the end)"""
+    e = OUT_EDGES[variant]()
+    e.calls = []
+    e.consume = consume
+    e.exc = HANDLER_MODES[mode]('application failure') if mode else None
+    s = PPSocket(data, sched)
+    try:
+        e.handle(s, None)
+    except BaseException as ex:   # noqa
+        end = ('propagated', mode) if ex is e.exc else ('other-exception', type(ex).__name__)
+    else:
+        end = ('returned',)
+    return end, list(e.calls), s.pos
+
+
+def model_handle_out(o):
+    e = o[0]
+    end = {0: ('returned',), 1: ('propagated', e[1] if len(e) > 1 else None), 2: ('other-exception', EXC_NAMES.get(e[1] if len(e) > 1 else None, '?')), 3: ('fuel',)}[e[0]]
+    return end, [(maddr(c[0]), c[1]) for c in o[1]], o[2]
+
+
+def judge_handler(ctx, variant, data, sched, mode, consume, got, plain):
+    """exactly one call of the wrapped handler, with the header's address, its outcome is handle()'s outcome"""
+    end, calls, pos = got
+    sp = spec(variant, data)
+    case = dict(kind='handler', variant=variant, data=data, sched=list(sched), mode=mode, consume=consume)
+    key = 'c18:wrapped-handler-called-twice-or-with-wrong-address'
+    what = None
+    if sp is not None and sp[0] == 'local':
+        if calls or end != ('returned',):
+            what = 'LOCAL header: expected no call and a normal return, got calls %r, handle() %r' % (calls, end)
+    else:
+        if len(calls) != 1:
+            what = 'the wrapped handler (which %s) was called %d times: %r; handle() %r' % (MODE_NAMES[mode], len(calls), calls, end)
+        else:
+            if sp is not None and sp[0] == 'ok':
+                if not addr_matches(sp[1], calls[0][0]) or calls[0][1] != sp[3]:
+                    what = 'well-formed header (source %r, %d bytes): the wrapped handler was called with %r after %d bytes' % (sp[1], sp[3], calls[0][0], calls[0][1])
+            elif sp is None:
+                if calls[0][0] != ('none',) or calls[0][1] > bound(variant, data):
+                    what = 'malformed header: the wrapped handler was called with %r after %d bytes' % calls[0]
+            want_end = ('returned',) if mode == 0 else ('propagated', mode)
+            if what is None and end != want_end:
+                what = 'the wrapped handler %s, but handle() ended with %r' % (MODE_NAMES[mode], end)
+        if what is None and calls[:1] != plain[1][:1]:
+            what = 'call %r differs from the call %r made when the wrapped handler simply returns' % (calls[:1], plain[1][:1])
+    if what:
+        ctx.fail(key, case, what)
+
+
+def gen_handler_outcomes(ctx):
+    """the wrapped handler returns / raises AssertionError / raises something else, with or without reading payload"""
+    rng = ctx.rng
+    streams = [d for _, d in conc_streams()] + mixin_streams() + [b'PROXY TCP4 1.2.3.4 5.6.7.8 1 99999\r\nEHLO\r\n', SIG + b'\x21\x11\x00\x04abcdEHLO\r\n', b'', b'PROXY UNKNOWN\r\n']
+    for _ in range(60 if ctx.quick else 1500):
+        streams.append((valid_v1(rng) if rng.random() < 0.5 else valid_v2(rng, 20)) + rng.choice(PAYLOADS[:6]))
+    jobs = []
+    for d in streams:
+        own = 'v1' if d.startswith(b'PROXY') else 'v2'
+        for variant in (own, 'auto'):
+            for sched in ([], [1] * 400, rand_sched(rng, 60)):
+                plain = impl_handle_outcome(variant, d, sched, 0, 0)
+                for mode in HANDLER_MODES:
+                    for consume in (0, 3):
+                        got = plain if (mode, consume) == (0, 0) else impl_handle_outcome(variant, d, sched, mode, consume)
+                        ctx.count('case:handler-outcome')
+                        ctx.count('handler:' + MODE_NAMES[mode])
+                        ctx.evaluated(('handler', variant, d, tuple(sched), mode, consume))
+                        judge_handler(ctx, variant, d, sched, mode, consume, got, plain)
+                        jobs.append((variant, d, sched, mode, consume, got))
+    outs = ctx.model.batch('c18_handle', [[VARIANT_NO[v], d, [min(k, 70000) for k in sc], m, c] for v, d, sc, m, c, _ in jobs])
+    for (v, d, sc, m, c, got), o in zip(jobs, outs):
+        mo = model_handle_out(o)
+        if mo != got:
+            ctx.mismatch('handler-outcome', dict(kind='handler', variant=v, data=d, sched=list(sc), mode=m, consume=c), got, mo)
+    ctx.sample(dict(kind='handler-outcome', variant='auto', data=streams[0], handler='records the call, reads 3 bytes, raises AssertionError',
+                    expected='one call with the header address, AssertionError propagates'))
+
+
+
 def run(ctx):
     ctx.extra['rule'] = (
         'cases = (class in {ProxyProtocolV1, ProxyProtocolV2, ProxyProtocol}, byte stream, short-read schedule). Streams: valid v1/v2 headers with boundary values of '
@@ -1196,6 +1314,7 @@ def run(ctx):
         'and every distinct short-read behaviour for headers of 15-24 bytes. Compared with the model: (src, dst) or the AssertionError message or LocalConnection from '
         'process_pp_v1/process_pp_v2, the address handle() passes on, bytes consumed at that moment. Oracle: independent recogniser of the specification. '
         'Concurrent connections: 2 connections x <= 3 TCP segments each x ALL orders of segment arrival (each connection parked inside recv_into until the harness releases it), and 2-3 connections gated at every recv_into with seeded random schedules; per connection the outcome must be what the same stream gives alone, and the model (run_conns with the observed order of recv_into calls) must agree. '
+        'Wrapped handler outcomes: for v1/v2/invalid/LOCAL streams x class x schedule the wrapped handler returns, raises AssertionError, a subclass of it, RuntimeError, LocalConnection or OSError, with or without first reading payload: exactly one call (none for LOCAL) with the header address at the header boundary, and handle() ends as that call ended (same exception object); compared with the model (run_h). '
         'mixin(): V1/V2/auto mixed into instances of one recording EdgeServer subclass in all 6 orders with repetitions, each edge compared with the statically subclassed reader. '
         'distinct_nontrivial counts distinct (class, stream, schedule) whose stream starts with "PROXY " or the v2 signature prefix, every concurrent run and every mixin run')
     ctx.extra['trusted_base'] = [
@@ -1213,6 +1332,7 @@ def run(ctx):
     gen_garbage(ctx, 2000 if ctx.quick else 60000)
     gen_all_schedules(ctx)
     gen_mixin(ctx)
+    gen_handler_outcomes(ctx)
     gen_concurrent(ctx)
 
 
@@ -1233,6 +1353,18 @@ def replay(ctx, case):
         if ctx.model:
             o = ctx.model.call('c18_conc', [[[VARIANT_NO[v], d, [max(1, m) for (_, m) in res[4][i].requests]] for i, (v, d, segs, sched) in enumerate(conns)], list(res[3])])
             print('model        :', [handle_view(model_out(x[1])) if x[0] == 1 else ('unfinished',) + tuple(x[1:]) for x in o[0]])
+        return 0
+    if c.get('kind') == 'handler':
+        data = unhex(c['data']); sched = list(c.get('sched', []))
+        print('class          :', OUT_EDGES[c['variant']].__mro__[1].__name__)
+        print('stream         :', data)
+        print('wrapped handler: records the call, reads %d payload bytes, %s' % (c['consume'], MODE_NAMES[c['mode']]))
+        print('specification  :', spec(c['variant'], data))
+        end, calls, pos = impl_handle_outcome(c['variant'], data, sched, c['mode'], c['consume'])
+        print('calls of the wrapped handler (address, bytes consumed before):', calls)
+        print('handle() ended :', end, ' bytes consumed:', pos)
+        if ctx.model:
+            print('model          :', model_handle_out(ctx.model.call('c18_handle', [VARIANT_NO[c['variant']], data, sched, c['mode'], c['consume']])))
         return 0
     if c.get('kind') == 'mixin':
         data = unhex(c['data']); sched = list(c.get('sched', []))
